@@ -602,6 +602,55 @@ pub fn run_merged(cfg: Cfg, st: &mut St, start: &Plain, hist: &[Act], mask: u32,
     }
     Merged { refs, bundle: st.take_bundle() }
 }
+fn clone_st(st: &St) -> St {
+    State {
+        cache: st.cache.clone(),
+        database: st.database.clone(),
+        transition_state: st.transition_state.clone(),
+        bundle_state: st.bundle_state.clone(),
+        use_preloaded_bundle: st.use_preloaded_bundle,
+        block_hashes: st.block_hashes.clone(),
+    }
+}
+/// `run_merged` for every merge mask of `hist`, sharing the executed prefix between masks: the State is
+/// copied field by field where the schedules part (merge after action i, or not). `f` returns false to stop.
+pub fn for_each_mask(cfg: Cfg, start: &Plain, hist: &[Act], ret: Ret, acc: &mut Acc, f: &mut dyn FnMut(u32, Merged) -> bool) {
+    let mut st = new_state(cfg, start, true, None);
+    if hist.is_empty() {
+        let m = run_merged(cfg, &mut st, start, hist, 0, ret, acc);
+        f(0, m);
+        return;
+    }
+    struct Node {
+        st: St,
+        r: Plain,
+        refs: Vec<Plain>,
+        g: usize,
+        mask: u32,
+        i: usize,
+    }
+    let mut stack = vec![Node { st, r: start.clone(), refs: vec![start.clone()], g: 0, mask: 0, i: 0 }];
+    while let Some(mut n) = stack.pop() {
+        step_state(cfg, &mut n.st, &mut n.r, hist[n.i]);
+        acc.transitions += 1;
+        if n.i + 1 == hist.len() {
+            n.st.merge_transitions(retention(ret, n.g));
+            n.refs.push(n.r.clone());
+            if !f(n.mask, Merged { refs: n.refs, bundle: n.st.take_bundle() }) {
+                return;
+            }
+            continue;
+        }
+        // schedule that merges after action i
+        let mut m = Node { st: clone_st(&n.st), r: n.r.clone(), refs: n.refs.clone(), g: n.g + 1, mask: n.mask | (1 << n.i), i: n.i + 1 };
+        m.st.merge_transitions(retention(ret, n.g));
+        m.refs.push(n.r.clone());
+        // schedule that does not
+        n.i += 1;
+        stack.push(m);
+        stack.push(n);
+    }
+}
 fn masks(n: usize) -> Vec<u32> {
     if n == 0 {
         return vec![0];
@@ -633,15 +682,19 @@ pub fn check_c16(c: &HCase, acc: &mut Acc) -> Vec<Viol> {
     let mut v = vec![];
     let w = world(c.cfg);
     let pre = pdb_of(&w);
-    for mask in masks(c.hist.len()) {
-        for ret in [Ret::Reverts, Ret::Plain, Ret::Mixed] {
-            let mut st = new_state(c.cfg, &w, true, None);
-            let m = run_merged(c.cfg, &mut st, &w, &c.hist, mask, ret, acc);
-            acc.traces += 1;
+    for ret in [Ret::Reverts, Ret::Plain, Ret::Mixed] {
+        let mut traces = 0;
+        for_each_mask(c.cfg, &w, &c.hist, ret, acc, &mut |mask, m| {
+            traces += 1;
             if let Some(d) = changeset_diff(&m.bundle, &pre, &pdb_of(m.refs.last().unwrap())) {
                 v.push(("changeset".into(), format!("merge mask {mask:#b}, retention {ret:?}: applying the changeset to the pre-state does not give the post-state: {d}")));
-                return v;
+                return false;
             }
+            true
+        });
+        acc.traces += traces;
+        if !v.is_empty() {
+            return v;
         }
     }
     v
@@ -672,13 +725,12 @@ pub fn check_c17(c: &HCase, acc: &mut Acc) -> Vec<Viol> {
     let mut v = vec![];
     let w = world(c.cfg);
     let pre = pdb_of(&w);
-    for mask in masks(c.hist.len()) {
-        let mut st = new_state(c.cfg, &w, true, None);
-        let m = run_merged(c.cfg, &mut st, &w, &c.hist, mask, Ret::Reverts, acc);
-        acc.traces += 1;
+    let mut traces = 0;
+    for_each_mask(c.cfg, &w, &c.hist, Ret::Reverts, acc, &mut |mask, m| {
+        traces += 1;
         if let Some(d) = unwind_diff(&m.bundle, &pre, &m.refs) {
             v.push(("reverts".into(), format!("merge mask {mask:#b}: {d}")));
-            return v;
+            return false;
         }
         let g = m.refs.len() - 1;
         for j in 0..=g + 1 {
@@ -692,14 +744,16 @@ pub fn check_c17(c: &HCase, acc: &mut Acc) -> Vec<Viol> {
                 // BundleAccount::revert re-inserts the slots of a destroyed account with original == present
                 let destroyed_storage = only_known && d.contains("storage of") && m.bundle.reverts.iter().rev().take(j).flatten().any(|(_, r)| r.wipe_storage);
                 v.push((if destroyed_storage { "revert-n:original-values-lost-when-undoing-a-destruction".to_string() } else { "revert-n".to_string() }, format!("merge mask {mask:#b}: after revert({j}) of {g} groups the changeset does not describe the state after the first {keep} groups: {d}")));
-                return v;
+                return false;
             }
             if b.reverts.len() != keep {
                 v.push(("revert-n-len".into(), format!("merge mask {mask:#b}: after revert({j}) {} revert groups remain, expected {keep}", b.reverts.len())));
-                return v;
+                return false;
             }
         }
-    }
+        true
+    });
+    acc.traces += traces;
     v
 }
 
